@@ -88,7 +88,7 @@ def run(pid, tier):
     o.assumptions = [
         'ordinal limbs, integrality and weight-positivity flags are representation changes made by the harness; the support predicate and the budget are TLC\'s',
         'Triangular/Pert bounds widened by 4 ulp of the larger bound are computed by the harness (two IEEE operations, declared)',
-        'events that need two independent adversarial words are outside the quantifier (e.g. Binomial(u64::MAX, 0.5) with words [~0, 0])',
+        'events that need two independent adversarial words are outside the quantifier (e.g. the all-zero proposal of UnitCircle); single adversarial words are combined with seeded random words at the other positions, so what is reached also depends on VERIF_SEED',
     ]
     if pid == 'C05':
         o.assumptions.append('the mean-words bound is an empirical statement over sampled random streams; a bound on acceptance rates of BTPE/PD/H2PE is not proved')
